@@ -477,9 +477,58 @@ static SPUR_EINTR: AtomicU64 = AtomicU64::new(0);
 static SPUR_OK: AtomicU64 = AtomicU64::new(0);
 /// 0 both, 1 EINTR only, 2 spurious wake-up only
 static SPUR_KIND: AtomicU32 = AtomicU32::new(0);
+/// exit-window mode: a futex wait of the main thread is held back, before the system call, until the word no
+/// longer has the expected value (for a join: until the thread has exited and the kernel has cleared the word).
+/// The kernel then answers EAGAIN, exactly as it does when the thread exits between join's own load and the
+/// kernel's comparison. Correct code re-reads the word and is done; code that retries the wait without
+/// re-reading enters the wait again and again on a word that will never change.
+static EXITWIN: AtomicU32 = AtomicU32::new(0);
+static EXITWIN_MAIN: AtomicU32 = AtomicU32::new(0);
+static EXITWIN_ADDR: AtomicU64 = AtomicU64::new(0);
+static EXITWIN_STALE: AtomicU64 = AtomicU64::new(0);
+static EXITWIN_REACHED: AtomicU64 = AtomicU64::new(0);
+static EXITWIN_TIMEOUT: AtomicU64 = AtomicU64::new(0);
+const EXITWIN_STALE_LIMIT: u64 = 20_000;
+fn exit_window(addr: usize, val: u32) {
+    if gettid() != EXITWIN_MAIN.load(Ordering::Relaxed) {
+        return;
+    }
+    let word = unsafe { &*(addr as *const AtomicU32) };
+    if word.load(Ordering::Relaxed) == val {
+        EXITWIN_STALE.store(0, Ordering::Relaxed);
+        for _ in 0..4000 {
+            if word.load(Ordering::Relaxed) != val {
+                EXITWIN_REACHED.fetch_add(1, Ordering::Relaxed);
+                EXITWIN_ADDR.store(addr as u64, Ordering::Relaxed);
+                return;
+            }
+            sleep_us(50);
+        }
+        EXITWIN_TIMEOUT.fetch_add(1, Ordering::Relaxed);
+        EXITWIN_ADDR.store(0, Ordering::Relaxed);
+    } else if EXITWIN_ADDR.load(Ordering::Relaxed) == addr as u64 {
+        // the word had already changed when the wait was entered, on the word this thread was just held for
+        let n = EXITWIN_STALE.fetch_add(1, Ordering::Relaxed) + 1;
+        if n >= EXITWIN_STALE_LIMIT {
+            // logical certificate: N consecutive waits on one word, each entered with the word already
+            // different from the expected value, none of them preceded by the word having the expected value
+            println!(
+                "@@VIOL C05/join/retries-futex-wait-forever-after-thread-exit {{\"consecutive_waits_entered_with_changed_word\":{n},\"expected\":{val},\"word\":{}}}",
+                word.load(Ordering::Relaxed)
+            );
+            println!("@@COUNT exit_window_reached {}", EXITWIN_REACHED.load(Ordering::Relaxed));
+            tiny_std::process::exit(0);
+        }
+    } else {
+        EXITWIN_STALE.store(0, Ordering::Relaxed);
+    }
+}
 fn futex_cb(ev: u32, _addr: usize, _val: u32, res: isize) -> u32 {
     if ev == rusl::verif::EV_WAIT_ENTER {
         FUTEX_WAITS.fetch_add(1, Ordering::Relaxed);
+        if EXITWIN.load(Ordering::Relaxed) != 0 {
+            exit_window(_addr, _val);
+        }
         let n = SPUR_ONE_IN.load(Ordering::Relaxed);
         if n > 0 {
             // what the kernel may legitimately do to any futex waiter: a signal (EINTR) or a wake-up
@@ -1083,7 +1132,34 @@ fn scen_spurious(seed: u64, n: usize, kind: u32) {
     cell_batch::<Big>(seed ^ 9, n, Disp::JoinEarly, true, false, &mut r);
     cell_batch::<u64>(seed ^ 10, n, Disp::DropLate, false, true, &mut r);
     cell_batch::<HeapRes>(seed ^ 11, n, Disp::JoinRace, false, true, &mut r);
+    // the handle is dropped while the thread, having stored its result, is held in its epilogue: the dropper
+    // really parks on the thread's exit word, and that wait is what gets ended early
+    cell_batch::<u64>(seed ^ 12, n, Disp::DropEpilogue, false, false, &mut r);
+    cell_batch::<HeapRes>(seed ^ 13, n, Disp::DropEpilogue, false, false, &mut r);
+    cell_batch::<Big>(seed ^ 14, n, Disp::DropRace, false, true, &mut r);
+    cell_batch::<u64>(seed ^ 15, n, Disp::DropEpilogue, true, false, &mut r);
     SPUR_ONE_IN.store(0, Ordering::Relaxed);
+}
+
+/// Every join / drop wait of the main thread meets the "thread exited between the load and the kernel's
+/// comparison" window (see `exit_window`).
+fn scen_exit_window(seed: u64, n: usize) {
+    let mut r = Rng(seed);
+    EXITWIN_MAIN.store(gettid(), Ordering::Relaxed);
+    EXITWIN.store(1, Ordering::Relaxed);
+    cell_batch::<u64>(seed, n, Disp::JoinEarly, false, false, &mut r);
+    cell_batch::<HeapRes>(seed ^ 1, n, Disp::JoinEarly, false, true, &mut r);
+    cell_batch::<Big>(seed ^ 2, n, Disp::JoinEarly, true, false, &mut r);
+    cell_batch::<u64>(seed ^ 3, n, Disp::JoinRace, false, true, &mut r);
+    cell_batch::<u64>(seed ^ 4, n, Disp::DropEpilogue, false, false, &mut r);
+    cell_batch::<HeapRes>(seed ^ 5, n, Disp::DropEpilogue, false, false, &mut r);
+    cell_batch::<u64>(seed ^ 6, n, Disp::DropRace, false, true, &mut r);
+    EXITWIN.store(0, Ordering::Relaxed);
+    println!("@@COUNT exit_window_reached {}", EXITWIN_REACHED.load(Ordering::Relaxed));
+    println!("@@COUNT exit_window_not_reached {}", EXITWIN_TIMEOUT.load(Ordering::Relaxed));
+    if EXITWIN_REACHED.load(Ordering::Relaxed) > 0 {
+        println!("@@DISTINCT exit-window/reached");
+    }
 }
 
 /// No injection: threads that exit at once followed by a join that parks on (very likely) the same
@@ -1300,8 +1376,29 @@ fn scen_churn(seed: u64, reps: usize, per: usize) {
     emit_points();
 }
 
-/// spawn while sysmon makes the k-th clone / stack mmap fail
-fn scen_fault(seed: u64, n: usize, nr: i64, ret: i64) {
+/// one un-injected spawn between markers: the driver reads from the tracer's log which system calls spawn
+/// performs (their numbers and how often), and then asks for `fault_nr` runs failing each of them
+fn scen_fault_discover(seed: u64) {
+    {
+        let v: Vec<u8> = Vec::with_capacity(1 << 20);
+        drop(v);
+    }
+    for i in 0..3 {
+        let tag = mix(seed, i as u64);
+        marker::begin(3, i as i64, 0);
+        let h = spawn_one::<u64>(i, tag, false, false, 50);
+        marker::report(79, i as i64, 0, 0, 0);
+        if let Ok(h) = h {
+            let _ = h.join();
+        }
+        marker::end(3, i as i64, 0, 0, 0);
+    }
+    let _ = quiesce();
+    println!("@@EVAL 3");
+}
+
+/// spawn while sysmon makes the `occ`-th call of system call `nr` inside the chosen spawn fail
+fn scen_fault(seed: u64, n: usize, nr: i64, ret: i64, occ: i64) {
     let mut r = Rng(seed);
     // warm the heap so that the allocator itself does not need mmap during the spawns
     {
@@ -1310,6 +1407,7 @@ fn scen_fault(seed: u64, n: usize, nr: i64, ret: i64) {
     }
     for pos in [0usize, n / 2, n - 1] {
         let before = snapshot();
+        let (_, vm_before) = proc_status();
         let mut o = Out {
             spawned: 0,
             joined_some: 0,
@@ -1322,7 +1420,7 @@ fn scen_fault(seed: u64, n: usize, nr: i64, ret: i64) {
         let mut err_at = usize::MAX;
         for i in 0..n {
             if i == pos {
-                marker::inject(marker::SCOPE_THREAD, nr, 0, ret, 1);
+                marker::inject(marker::SCOPE_THREAD, nr, occ, ret, 1);
             }
             let tag = mix(seed, i as u64);
             match spawn_one::<u64>(i, tag, false, false, r.below(100)) {
@@ -1366,6 +1464,13 @@ fn scen_fault(seed: u64, n: usize, nr: i64, ret: i64) {
                 unlock();
             }
             report_alloc_errors("fault");
+            // every thread of this round is gone: whatever spawn mapped for the refused thread must be gone too
+            let (_, vm_after) = proc_status();
+            if vm_after > vm_before + 1024 {
+                println!(
+                    "@@VIOL C06/failed-spawn/mapping-leaked {{\"syscall\":{nr},\"occurrence\":{occ},\"position\":{pos},\"vmsize_kb_before\":{vm_before},\"vmsize_kb_after\":{vm_after}}}"
+                );
+            }
             let after = snapshot();
             let mut dd = [(0usize, 0usize, 0isize); 48];
             let k = snap_diff(&before, &after, &mut dd);
@@ -1380,7 +1485,7 @@ fn scen_fault(seed: u64, n: usize, nr: i64, ret: i64) {
         }
         println!("@@EVAL {}", o.spawned + o.spawn_err);
         println!("@@COUNT fault_spawn_err {}", o.spawn_err);
-        println!("@@DISTINCT fault/nr{nr}/pos{}", if pos == 0 { "first" } else if pos == n - 1 { "last" } else { "middle" });
+        println!("@@DISTINCT fault/nr{nr}.{occ}/pos{}", if pos == 0 { "first" } else if pos == n - 1 { "last" } else { "middle" });
         println!("@@SAMPLE {{\"scenario\":\"fault\",\"syscall\":{nr},\"forced\":{ret},\"position\":{pos},\"spawn_err_at\":{}}}", err_at as i64);
     }
 }
@@ -1391,6 +1496,7 @@ pub fn main() -> i32 {
     let mut seed = 1u64;
     let mut n = 50usize;
     let mut quar = 1u64;
+    let mut occ = 0u64;
     for (i, a) in tiny_std::env::args_os().enumerate() {
         let b = a.as_slice();
         let b = &b[..b.len().saturating_sub(1)];
@@ -1399,6 +1505,7 @@ pub fn main() -> i32 {
             2 => seed = parse_u64(b),
             3 => n = parse_u64(b) as usize,
             4 => quar = parse_u64(b),
+            5 => occ = parse_u64(b),
             _ => {}
         }
     }
@@ -1406,6 +1513,7 @@ pub fn main() -> i32 {
     TRACED.store(marker::traced(), Ordering::Relaxed);
     rusl::verif::set_point_callback(Some(point_cb));
     rusl::verif::set_futex_callback(Some(futex_cb));
+    let n_raw = n;
     let n = n.max(3);
     match scen {
         b"cells" => scen_cells(seed, n),
@@ -1413,14 +1521,18 @@ pub fn main() -> i32 {
         b"spurious_eintr" => scen_spurious(seed, n, 1),
         b"spurious_wake" => scen_spurious(seed, n, 2),
         b"latewake" => scen_latewake(seed, n),
+        b"exit_window" => scen_exit_window(seed, n),
         b"mixed" => {
             scen_mixed(seed, n, 8);
             scen_mixed(seed ^ 0x55, n, 64);
             scen_mixed(seed ^ 0xAA, n, 512);
         }
         b"churn" => scen_churn(seed, n, 60),
-        b"fault_clone" => scen_fault(seed, 6, 56, -11),
-        b"fault_mmap" => scen_fault(seed, 6, 9, -12),
+        b"fault_clone" => scen_fault(seed, 6, 56, -11, 0),
+        b"fault_mmap" => scen_fault(seed, 6, 9, -12, 0),
+        b"fault_discover" => scen_fault_discover(seed),
+        // fault_nr <seed> <nr> <quarantine> <occurrence>: the refusal is EAGAIN for clone, ENOMEM for everything else
+        b"fault_nr" => scen_fault(seed, 6, n_raw as i64, if n_raw == 56 { -11 } else { -12 }, occ as i64),
         _ => println!("@@INCONCLUSIVE unknown scenario"),
     }
     lock();
